@@ -25,7 +25,7 @@ RULE = ('directory layouts of 1-6 layer files (chain depth <= 4; extensions json
 ASSUMPTIONS = ['chain model in this file, stream/merge model in harness/bv', 'layouts never provide one layer name through two files; diamonds are not generated']
 
 EXTS = ['json', 'jsonl', 'yaml', 'yml', 'toml']
-WORDS = ['a', 'b', 'c', 'd', 'base', 'prod', 'eu', 'svc', 'x1']
+WORDS = ['a', 'b', 'c', 'd', 'base', 'prod', 'eu', 'svc', 'x1', 'v[1]', 'q?', 'st*r', 'sp ace', 'ünï']
 
 
 class Missing(Exception):
@@ -273,6 +273,12 @@ def gen_case(rng, i, tier):
         tgt = ps[-1]
         ext = tgt.rsplit('.', 1)[-1]
         lname = words[4] + '.' + words[5] + '.' + ext
+        if rng.random() < 0.12:
+            # target without any extension: inheriting from its name is impossible -> must be reported, not crash
+            raw = files.pop(tgt)
+            files['settings' + words[5]] = raw
+            tgt = 'settings' + words[5]
+            ps[-1] = tgt
         if rng.random() < 0.3:
             lname = words[4] + '.' + ext
         files[lname] = {'link': tgt if d == '' else posixpath.join(d, posixpath.basename(tgt))}
@@ -284,6 +290,12 @@ def gen_case(rng, i, tier):
             inputs = [add(lname.rsplit('.', 1)[0] + '.over')]
     if rng.random() < 0.1 and kind not in ('missing',):
         skipP = skipP or rng.random() < 0.3
+    if rng.random() < 0.15 and kind not in ('symlink',):
+        # the whole layout lives in a directory whose name contains a dot
+        dd = rng.choice(['conf.d', 'v1.2', '.config', 'a.b.c'])
+        files = {posixpath.join(dd, p): e for p, e in files.items()}
+        inputs = [posixpath.join(dd, p) for p in inputs]
+        labels.add('layout:dotted-directory')
     # TOML cannot express null ($parent: null): such files get another extension
     for p in list(files.keys()):
         e = files[p]
@@ -321,6 +333,9 @@ def materialise(d, files, rng, ext_map=None):
                 f.write('not a layer\n')
         else:
             fmt = p.rsplit('.', 1)[-1]
+            if fmt not in EXTS:
+                # a file without extension is only reachable through a symlink; its format is the link's
+                fmt = next((q.rsplit('.', 1)[-1] for q, e2 in files.items() if 'link' in e2 and posixpath.basename(e2['link']) == posixpath.basename(p)), 'yaml')
             with open(full, 'w') as f:
                 f.write(ser.write(fmt, e['docs'], rng))
 
@@ -478,6 +493,11 @@ def check_case(ctx, case):
     except Missing as e:
         exp, order, fail = None, None, 'missing layer %s' % e
     except (Invalid, model.Reject) as e:
+        # outside the judged domain for the chain model, but the tool must still not crash
+        run = run_layout(ctx, res, case, rng, lib=False)
+        ctx.cleanup_case(run['dir'])
+        if run['rc'] not in (0, 1) or 'panic:' in run['stderr'] or 'goroutine ' in run['stderr']:
+            return res.violate('crash', 'bkl crashed on a layout with %s: rc=%s %s' % (e, run['rc'], run['stderr']), case=case)
         return res.skip('layout outside the judged domain: %s' % e)
     res.nontrivial = len(files) > 1
     run = run_layout(ctx, res, case, rng)
